@@ -2039,7 +2039,7 @@ func (e *tlEngine) paramTableOwned(f *ssa.Function, k int, depth int) bool {
 				}
 				r := t.root(c.Call.Args[k])
 				switch {
-				case isLocalRoot(r) && e.localTableOwned(t, r):
+				case isLocalRoot(r) && e.localTableOwned(t, r) && builtEmptyHere(c.Call.Args[k]):
 				case func() bool {
 					pi, _, ok := rootParam(r)
 					return ok && !isExportedAPI(g) && g.Parent() == nil && e.paramTableOwned(g, pi, depth+1)
@@ -2073,4 +2073,39 @@ func localBase(tab string) string {
 		return tab[:i]
 	}
 	return tab
+}
+
+// builtEmptyHere: v points (into) a bitmap/table that this function created empty — a composite literal, new,
+// or the exported constructors New / NewBitmap. A table that came back from another function may already
+// hold shared containers, so it does not count.
+func builtEmptyHere(v ssa.Value) bool {
+	for i := 0; i < 4; i++ {
+		fa, ok := v.(*ssa.FieldAddr)
+		if !ok {
+			break
+		}
+		v = fa.X
+	}
+	switch x := v.(type) {
+	case *ssa.Alloc:
+		return true
+	case *ssa.Call:
+		if g := x.Call.StaticCallee(); g != nil && (g.Name() == "New" || g.Name() == "NewBitmap") && g.Signature.Recv() == nil {
+			return true
+		}
+	case *ssa.UnOp:
+		if al, ok := x.X.(*ssa.Alloc); ok && x.Op == token.MUL {
+			ok2 := false
+			for _, r := range *al.Referrers() {
+				if st, isSt := r.(*ssa.Store); isSt && st.Addr == al {
+					if !builtEmptyHere(st.Val) {
+						return false
+					}
+					ok2 = true
+				}
+			}
+			return ok2
+		}
+	}
+	return false
 }
